@@ -1083,7 +1083,7 @@ func (e *Engine) invoke(s *State, f *Frame, fnv Value, method *types.Func, args 
 	}
 	// package-level default models: a function VerifModel_<name with non-alphanumerics as '_'> in the harness's own
 	// package stands in for an environment function in every harness of that package (e.g. VerifModel_syscall_Read)
-	if e.hpkg != nil && len(fn.Blocks) == 0 || (fn.Pkg != nil && fn.Pkg.Pkg.Path() == "syscall") {
+	if e.hpkg != nil && (fn.Pkg == nil || fn.Pkg != e.hpkg) {
 		if mf := e.pkgModel(fn); mf != nil {
 			fn = mf
 			bindings = nil
